@@ -19,7 +19,7 @@ RULE = (
     "Generated cases = rate in {1000,8000,16000} x window w from decimal literals {0.005..0.2} x "
     "(min_dur,max_dur,max_silence) built as Decimal(k)*Decimal(w) -> float (multiples whose float quotient "
     "is often not an integer: 0.07/0.01, 0.14/0.02 ...) or clear non-multiples ((k+1/3)w, (k+1/2)w) x "
-    "drop/strict x input kind (bytes + analysis_window, or AudioReader(block_dur=w)) - a quarter of the cases with a "
+    "drop/strict x input kind (bytes + analysis_window, or AudioReader(block_dur=w), the latter sometimes with hop_dur=w/2 - windows then overlap but durations are still counted in block durations) - a quarter of the cases with a "
     "window of B+1/4, B+1/2 or B+3/4 samples, where blocks hold B samples but a non-reader input still counts durations "
     "in the analysis_window argument while a reader counts them in B/rate - x a recording made of "
     "bursts of m-1, m, m+1 windows, bursts separated by s and s+1 quiet windows and one burst of 2M+1 windows "
@@ -29,7 +29,7 @@ RULE = (
     "enumeration of 'reject_grid' -> ValueError iff the statement's predicate, success otherwise. "
     "Non-trivial = some duration is an exact decimal multiple of w whose float quotient is not an integer."
 )
-MUST_HIT = ["reader_with_conflicting_window_argument", "hostile_min", "hostile_max", "hostile_sil", "input_reader", "event_of_exactly_minwin", "window_not_whole_samples",
+MUST_HIT = ["input_overlapping_reader", "reader_with_conflicting_window_argument", "hostile_min", "hostile_max", "hostile_sil", "input_reader", "event_of_exactly_minwin", "window_not_whole_samples",
             "grid_reject", "grid_accept"]
 ASSUMPTIONS = [
     "quotients between 1e-11 and 1e-8 from an integer are never generated (statement says 1e-9, code uses 1e-10)",
@@ -123,9 +123,13 @@ def check_case(case, rec):
     data = make_audio(pat, B, case["tail"])
     kw = dict(min_dur=mind, max_dur=maxd, max_silence=sild, drop_trailing_silence=case["drop"],
               strict_min_dur=case["strict"])
+    overlap = bool(case.get("overlap")) and via_reader and B % 2 == 0 and not case.get("wf")
     if via_reader:
-        src = auditok.AudioReader(data, block_dur=w, sampling_rate=sr, sample_width=2, channels=1)
+        rkw = {"hop_dur": (B // 2) / sr} if overlap else {}
+        src = auditok.AudioReader(data, block_dur=w, sampling_rate=sr, sample_width=2, channels=1, **rkw)
         classes.add("input_reader")
+        if overlap:
+            classes.add("input_overlapping_reader")
         if case.get("conflict_aw"):
             # for a reader input the window is the reader's block duration, whatever else is passed
             kw["analysis_window" if case["conflict_aw"] == "long" else "aw"] = w * 2.5
@@ -136,6 +140,15 @@ def check_case(case, rec):
     regions = list(auditok.split(src, **kw))
     got = [(round(r.start * sr / B), -(-len(r) // B)) for r in regions]
     valid = [c == "1" for c in pat] + ([False] if case["tail"] else [])
+    if overlap:
+        # windows overlap by half: window k covers samples [k*B/2, k*B/2+B); it is active iff it holds a loud
+        # sample (half a window at amplitude 4096 is 69 dB).  Durations are still counted in block durations.
+        from ..oracles import block_model
+
+        N = len(data) // 2
+        loud = [c == "1" for c in pat for _ in range(B)] + [False] * case["tail"]
+        spans, _V = block_model(N, B, B // 2, None)
+        valid = [any(loud[a:b]) for a, b in spans]
     exp = [(s, e - s + 1) for s, e in ref_tokens(valid, kmin, kmax, ksil, case["strict"], case["drop"])]
     nt = False
     for nm, d in (("min", mind), ("max", maxd), ("sil", sild)):
@@ -191,6 +204,7 @@ def explicit_cases():
         base,
         dict(base, via_reader=True, tail=4),
         dict(base, via_reader=True, conflict_aw="long"),
+        dict(base, via_reader=True, overlap=True, min=[3, "mul"], max=[6, "mul"], sil=[1, "mul"]),
         dict(base, w="0.02", min=[7, "mul"], max=[29, "mul"], sil=[7, "mul"]),
         dict(base, w="0.03", sr=8000, min=[9, "mul"], max=[19, "third"], sil=[0, "mul"], drop=True, strict=True),
         dict(base, w="0.1", min=[3, "mul"], max=[3, "mul"], sil=[2, "half"], order="fgh"),
@@ -225,7 +239,7 @@ def strategy(draw):
         "min": [kmin if fmin == "mul" else kmin - 1, fmin],
         "max": [kmax, fmax], "sil": [ksil, fsil],
         "drop": draw(st.booleans()), "strict": draw(st.booleans()),
-        "via_reader": draw(st.booleans()), "conflict_aw": draw(st.sampled_from([None, None, "long", "short"])),
+        "via_reader": draw(st.booleans()), "overlap": draw(st.integers(0, 3)) == 0, "conflict_aw": draw(st.sampled_from([None, None, "long", "short"])),
         "order": order,
         "trail": draw(st.integers(0, 3)), "tail": draw(st.integers(0, B - 1) | st.just(0)),
     }
